@@ -135,6 +135,7 @@ def engine_case(c: Campaign, spec: dict[str, Any], mode: str, trust: bool, picks
     peer_dedup = None
     pi = 0
     steps = 0
+    aged = [0]
 
     def processed(row_id: int) -> bool:
         return w.scalar("SELECT 1 FROM processed_messages WHERE message_id = ?", (str(row_id),)) is not None
@@ -206,6 +207,10 @@ def engine_case(c: Campaign, spec: dict[str, Any], mode: str, trust: bool, picks
         m = w.queue.poll_one()
         if m is None:
             break
+        if mode == "age" and picks and picks[(pi + steps) % len(picks)] % 2 == 1:
+            # a day passes for the in-memory filter: the processor's own rotation (age > 24 h) fires INSIDE the handling of this message
+            get_deduplicator()._creation_time -= 90000.0
+            aged[0] += 1
         try:
             w.processor._handle_message(m)
         except Exception as e:  # noqa: BLE001
@@ -235,6 +240,8 @@ def engine_case(c: Campaign, spec: dict[str, Any], mode: str, trust: bool, picks
            sample={"spec": spec["name"], "mode": mode, "trust_negative": trust, "redeliveries": redeliveries, "with_durable_record": checked}
            if checked > 3 else None)
     c.count("redeliveries-checked", checked)
+    if aged[0]:
+        c.count("rotations-by-age-inside-a-handler", aged[0])
 
 
 def shard_engine(prop: str, tier: str, seed: int, n: int) -> dict[str, Any]:
@@ -245,7 +252,7 @@ def shard_engine(prop: str, tier: str, seed: int, n: int) -> dict[str, Any]:
     @hseed(seed)
     @settings(max_examples=n, database=None, deadline=None, derandomize=False, suppress_health_check=list(HealthCheck),
               phases=[Phase.generate], report_multiple_bugs=False)
-    @given(spec_st, st.sampled_from(["same", "rotate", "rehydrate", "restart", "peer"]), st.booleans(), st.lists(st.integers(0, 40), min_size=1, max_size=12),
+    @given(spec_st, st.sampled_from(["same", "rotate", "rehydrate", "restart", "peer", "age"]), st.booleans(), st.lists(st.integers(0, 40), min_size=1, max_size=12),
            st.one_of(st.just(2000), st.integers(1, 40)))
     def t(spec, mode, trust, picks, cap):
         if mode == "peer" and trust:
@@ -262,7 +269,7 @@ def shard_grid(prop: str, tier: str, seed: int, name: str) -> dict[str, Any]:
     """Every handled message redelivered right after every later step, all four modes, both option values."""
     c = Campaign(prop, tier, seed, LEVEL)
     spec = core_corpus()[name]
-    for mode in ("same", "rotate", "rehydrate", "restart", "peer"):
+    for mode in ("same", "rotate", "rehydrate", "restart", "peer", "age"):
         for trust in (False, True):
             if mode == "peer" and trust:
                 continue
